@@ -12,9 +12,10 @@ import vlib  # noqa: E402
 
 PURITY_GROUPS = {"C01": ["btree"], "C02": ["btree"], "C03": ["hash"], "C04": ["ring"], "C05": ["ring"], "C06": ["tree"],
                  "C07": ["btree", "hash", "tree", "ring"], "C08": ["btree", "hash", "tree", "ring"], "C17": ["sem"],
-                 "C18": ["thread"]}
+                 "C18": ["thread"], "C11": ["normal"], "C12": ["join"], "C16": ["env"], "C15": ["fs"]}
 PURITY_SRC = ["hash.c", "tree.c", "btree.c", "ring.c", "allocator.c", "status.c", "errno_status.c", "system.c",
-              "posix/sem_posix.c", "posix/thread_posix.c", "posix/system_posix.c"]
+              "posix/sem_posix.c", "posix/thread_posix.c", "posix/system_posix.c", "path.c", "string_view.c", "filesystem.c",
+              "posix/filesystem_posix.c", "posix/environment_posix.c"]
 
 
 def purity_probes(ctx, only=None):
